@@ -47,6 +47,7 @@ var c17LRs = []lrSpec{
 	{"1e-155", &optimizers.SGDConfig{LearningRate: 1e-155}, 1e-155},
 	{"0.01 (the default, given explicitly)", &optimizers.SGDConfig{LearningRate: 0.01}, 0.01}, {"1", &optimizers.SGDConfig{LearningRate: 1}, 1},
 	{zeroValueSGD, nil, 0},
+	{"1e-250", &optimizers.SGDConfig{LearningRate: 1e-250}, 1e-250}, {"-1e-300", &optimizers.SGDConfig{LearningRate: -1e-300}, -1e-300}, {"1e-241", &optimizers.SGDConfig{LearningRate: 1e-241}, 1e-241},
 	{"-1", &optimizers.SGDConfig{LearningRate: -1}, -1}, {"-2", &optimizers.SGDConfig{LearningRate: -2}, -2}, {"-1e308", &optimizers.SGDConfig{LearningRate: -1e308}, -1e308},
 	{"5", &optimizers.SGDConfig{LearningRate: 5}, 5}, {"-7", &optimizers.SGDConfig{LearningRate: -7}, -7}, {"3", &optimizers.SGDConfig{LearningRate: 3}, 3},
 }
@@ -55,7 +56,7 @@ func runC17(c *fw.Ctx) {
 	deeperBounds(!c.Quick())
 	for _, shape := range Shapes(0, c.Pick(4, 6), 3) {
 		for _, lr := range c17LRs {
-			for src := 0; src < 9; src++ {
+			for src := 0; src < 10; src++ {
 				shape, lr, src := shape, lr, src
 				c.Case(func(k *fw.K) { c17Case(k, shape, lr, src) })
 			}
@@ -118,6 +119,17 @@ func c17Weight(k *fw.K, shape []int, src int) (w tensor.Tensor, what string, err
 	}
 	defer func() { what += prov }()
 	switch src {
+	case 9: // a HUGE gradient (elements around 1e252): with a rate of 1e-250 the step is an ordinary number although the rate is far below
+		// every "is it zero" tolerance; with ordinary rates the step is huge but finite, with 1e150 it overflows - IEEE decides each
+		cv := Shuffled(k.Rng, Unique(k.Rng, shape, 0.5, 4))
+		for i := range cv.Data {
+			cv.Data[i] *= 1e252
+		}
+		y, e := w.Mul(rt.MustLeaf(cv, false))
+		if e != nil {
+			return nil, "", e
+		}
+		return w, "gradient elements around 1e252", tensor.BackPropagate(y)
 	case 8: // the parameter is the LOWER-RANK operand of a product whose other operand only has extra leading dimensions of size 1
 		// (w:[3] times x:[1,1,3]): nothing is expanded, the gradient has the parameter's own shape
 		cs := append([]int{1}, shape...)
@@ -307,7 +319,7 @@ func c17Case(k *fw.K, shape []int, lr lrSpec, src int) {
 		var w tensor.Tensor
 		var what string
 		var err error
-		if p := call(func() { w, what, err = c17Weight(k, shape, (src+round)%9) }); p != nil || err != nil {
+		if p := call(func() { w, what, err = c17Weight(k, shape, (src+round)%10) }); p != nil || err != nil {
 			k.Failf("building a weight with a gradient failed: panic=%v err=%v", p, err)
 			return
 		}
